@@ -46,6 +46,9 @@ type FileSpec struct {
 	Schema    []SchemaElem
 	RowGroups []RGSpec
 	Extras    bool // optional footer fields: created_by, key_value_metadata, column_orders
+	// FileOffset: what ColumnChunk.file_offset holds - "start" (first page of the chunk), "zero" (newer writers) or
+	// "end" (older writers stored the position of the chunk's trailing metadata); readers must go by data_page_offset
+	FileOffset string
 }
 
 // PlainEncode encodes values of a physical type.
@@ -511,7 +514,14 @@ func WriteFile(spec FileSpec) ([]byte, error) {
 				md.SetList(8, TStruct, []TVal{{T: TStruct, S: NewSt().SetStr(1, "k").SetStr(2, "v")}})
 				md.SetSt(12, NewSt().SetI64(3, 0))
 			}
-			cc := NewSt().SetI64(2, start).SetSt(3, md)
+			fo := start
+			switch spec.FileOffset {
+			case "zero":
+				fo = 0
+			case "end":
+				fo = start + csize
+			}
+			cc := NewSt().SetI64(2, fo).SetSt(3, md)
 			chunks = append(chunks, TVal{T: TStruct, S: cc})
 			total += csize
 		}
